@@ -26,7 +26,7 @@ var (
 var lastTemplate string
 
 func template(rt *rapid.T) (Frame, []int) {
-	kind := rapid.SampledFrom([]string{"tcp-syn", "tcp-est", "tcp-est", "tcp-est6", "udp", "udp6", "udp-conn", "echo4", "echo6", "icmp4-err", "icmp6-err", "ndp", "arp", "frag4", "frag6", "noise"}).Draw(rt, "template")
+	kind := rapid.SampledFrom([]string{"tcp-syn", "tcp-est", "tcp-est", "tcp-est6", "udp", "udp6", "udp-conn", "echo4", "echo6", "icmp4-err", "icmp6-err", "ndp", "arp", "frag4", "frag6", "noise", "jumbo"}).Draw(rt, "template")
 	lastTemplate = kind
 	v4 := func(proto uint8, l4 []byte) []byte {
 		return codec.BuildIPv4(codec.IPv4Hdr{Src: b4, Dst: a4, Proto: proto, ID: uint16(rapid.IntRange(0, 3).Draw(rt, "ipid"))}, l4)
@@ -63,6 +63,21 @@ func template(rt *rapid.T) (Frame, []int) {
 		return b
 	}
 	switch kind {
+	case "jumbo":
+		// one very large TCP segment or UDP datagram in a single frame (a jumbo link, or what
+		// reassembly hands up): larger than the small socket buffers
+		n := rapid.SampledFrom([]int{4076, 4077, 8172, 8173, 9000, 20000, 65000}).Draw(rt, "jumbo-len")
+		pl := make([]byte, n)
+		switch rapid.IntRange(0, 2).Draw(rt, "jumbo-kind") {
+		case 0:
+			seg := codec.BuildTCP(b4, a4, codec.TCPSeg{SrcPort: uint16(52000 + rapid.IntRange(0, 3).Draw(rt, "sport")), DstPort: portListen, Seq: rapid.Uint32().Draw(rt, "seq"), Flags: uint8(rapid.SampledFrom([]int{codec.SYN, codec.ACK, codec.ACK | codec.PSH}).Draw(rt, "jflags")), Wnd: 1000, Payload: pl})
+			return Frame{P: codec.EtherIPv4, B: hex.EncodeToString(v4(codec.ProtoTCP, seg))}, append(ipv4Fields, tcpFields(20)...)
+		case 1:
+			s := codec.TCPSeg{SrcPort: 50000, DstPort: portListen, Seq: uint32(rapid.SampledFrom([]int{0, 1, 100, 70000}).Draw(rt, "relseq")), Flags: codec.ACK | codec.PSH, Wnd: 1000, Payload: pl}
+			return Frame{P: codec.EtherIPv4, B: hex.EncodeToString(v4(codec.ProtoTCP, codec.BuildTCP(b4, a4, s))), Rel: true}, append(ipv4Fields, tcpFields(20)...)
+		default:
+			return Frame{P: codec.EtherIPv4, B: hex.EncodeToString(v4(codec.ProtoUDP, codec.BuildUDP(b4, a4, 4000, portUDP, pl, true)))}, append(ipv4Fields, 20, 22, 24, 25, 26)
+		}
 	case "tcp-syn":
 		seg := codec.BuildTCP(b4, a4, codec.TCPSeg{SrcPort: uint16(52000 + rapid.IntRange(0, 3).Draw(rt, "sport")), DstPort: portListen, Seq: rapid.Uint32().Draw(rt, "seq"), Flags: codec.SYN, Wnd: 1000, Opts: opts()})
 		return Frame{P: codec.EtherIPv4, B: hex.EncodeToString(v4(codec.ProtoTCP, seg))}, append(ipv4Fields, tcpFields(20)...)
@@ -173,6 +188,7 @@ func genCase(rt *rapid.T) Case {
 	for i := 0; i < n; i++ {
 		c.Frames = append(c.Frames, genFrame(rt))
 	}
+	c.SmallBuf = evid.Hash64("smallbuf", fmt.Sprintf("%v", c.Frames))%4 == 0
 	// linger (see Case.LingerMs) mostly when something was aimed at the live connection
 	aimed := false
 	for _, f := range c.Frames {
@@ -251,6 +267,10 @@ func runMutOnce(c Case) *evid.Failure {
 		return nil
 	}
 	defer w.Close()
+	if c.SmallBuf {
+		w.Shrink()
+		evid.Label("barrage:small-receive-buffers")
+	}
 	st := w.Env.Stack.Stats() // the counters are shared pointers: read the values now
 	b0, b1, b2 := st.IP.PacketsDelivered.Value(), st.TCP.ValidSegmentsReceived.Value(), st.UDP.PacketsReceived.Value()
 	for _, f := range c.Frames {
